@@ -547,7 +547,11 @@ impl Tcp {
             },
             Segment::Fin(seq) => match self.sockets.get_mut(&SocketPair::new(dst, src)) {
                 Some(sock) => sock.buffer(seq, SequencedSegment::Fin)?,
-                None => return Err(Protocol::Tcp(Segment::Rst)),
+                // The local side already closed gracefully (there is no
+                // FIN-WAIT-2 / TIME-WAIT state here). A FIN carries no data,
+                // so nothing was lost: do not answer with a RST, which would
+                // destroy what this side sent before it closed.
+                None => {}
             },
             Segment::Rst => {
                 if self.sockets.get(&SocketPair::new(dst, src)).is_some() {
